@@ -352,6 +352,9 @@ func generate() {
 		emit(opGet("Fresh1"), true)
 	}
 
+	// ---- (6) concurrent requests --------------------------------------------------------------------------
+	concBlocks(r, thorough)
+
 	// ---- (4) the session table fills up (known finding) ---------------------------------------------
 	{
 		var tbl []initAcct
@@ -367,5 +370,78 @@ func generate() {
 		emit(opLogin("s02", []byte("pw1")), true) // holds an entry already: still fine
 		emit(opLogin("s31", []byte("pw1")), true)
 		emit(opChk("old03", []byte("pw1")), true)
+	}
+}
+
+func subChk(id string, pw []byte) string { return fmt.Sprintf("chk %s %s", hb(id), hx.Hex(pw)) }
+func subChpw(id string, o, n []byte) string {
+	return fmt.Sprintf("chpw %s %s %s", hb(id), hx.Hex(o), hx.Hex(n))
+}
+func subLogin(id string, pw []byte) string { return fmt.Sprintf("login %s %s", hb(id), hx.Hex(pw)) }
+
+func concLine(reps int, groups [][]string) string {
+	gs := make([]string, len(groups))
+	for i, g := range groups {
+		gs[i] = strings.Join(g, " / ")
+	}
+	return fmt.Sprintf("conc %d %s", reps, strings.Join(gs, " // "))
+}
+
+// concBlocks: accounts with different passwords (hence different salts and hashes) worked on at the same moment.
+func concBlocks(r *hx.Rand, thorough bool) {
+	rounds, reps := 2, 60
+	if thorough {
+		rounds, reps = 12, 250
+	}
+	// distinct effective keys, so that "wrong" is wrong
+	pws := [][]byte{[]byte("pw1"), []byte("pw2"), []byte("password1"), []byte("a"), []byte("Pw1"), []byte("passwor"), []byte("zz9"), []byte("qwertyui")}
+	for round := 0; round < rounds; round++ {
+		n := 4 + r.Intn(5)
+		var tbl []initAcct
+		ids := make([]string, n)
+		for k := 0; k < n; k++ {
+			ids[k] = fmt.Sprintf("Conc%02d", k)
+			tbl = append(tbl, initAcct{slot: (7*k + round) % nSlot, id: id13(ids[k]), kind: 'g', pw: pws[k], email: "c@c"})
+		}
+		tbl = append(tbl, initAcct{slot: 49 - round%3, id: id13("guest"), kind: 'g', pw: []byte("gpw")})
+		emit(resetLine(nil, tbl), false)
+		wrong := func(k int) []byte { return pws[(k+1)%len(pws)] }
+		// (a) read-only: every account checked with its own and with a wrong password, and ONE account checked by
+		// several groups at once
+		var g [][]string
+		for k := 0; k < n; k++ {
+			g = append(g, []string{subChk(ids[k], pws[k]), subChk(strings.ToUpper(ids[k]), wrong(k)), subChk(ids[k], pws[k])})
+		}
+		g = append(g, []string{subChk(ids[0], wrong(0))}, []string{subChk(ids[0], pws[0])}, []string{subChk("nobody1", pws[0])})
+		emit(concLine(reps, g), true)
+		// (b) writers on different accounts: change there and back, checks in between (old refused, new accepted)
+		g = nil
+		for k := 0; k < n; k++ {
+			nw := append([]byte("N"), pws[k]...)
+			g = append(g, []string{subChpw(ids[k], pws[k], nw), subChk(ids[k], nw), subChk(ids[k], pws[k]), subChpw(ids[k], wrong(k), []byte("hijack")),
+				subChpw(ids[k], nw, pws[k]), subChk(ids[k], pws[k])})
+		}
+		emit(concLine(reps, g), true)
+		// (c) logins (every account has its session entry already) next to checks and a password-less guest
+		for k := 0; k < n; k++ {
+			emit(opLogin(ids[k], pws[k]), false)
+		}
+		emit(opLogin("guest", []byte("x")), false)
+		g = nil
+		for k := 0; k < n; k++ {
+			g = append(g, []string{subLogin(ids[k], pws[k]), subLogin(ids[k], wrong(k)), subChk(ids[k], pws[k])})
+		}
+		g = append(g, []string{subLogin("guest", []byte("whatever")), subChk("guest", []byte("whatever"))})
+		emit(concLine(reps/2+1, g), true)
+		// the table afterwards, sequentially
+		for k := 0; k < n; k++ {
+			emit(opLogin(ids[k], pws[k]), true)
+			emit(opChk(ids[k], wrong(k)), true)
+		}
+	}
+	// malformed
+	for _, l := range []string{"conc", "conc 0 chk 6162 70", "conc 5", "conc 5 chk 6162", "conc 5 chk 6162 70 /", "conc 5 // chk 6162 70", "conc 5 reg 6162 70 -",
+		"conc 1001 chk 6162 70", "conc x chk 6162 70", "conc 5 chk 616 70"} {
+		emit(l, false)
 	}
 }
